@@ -10,7 +10,7 @@ def run(ctx):
     behs = []
     # every exit path from Established after 0-2 UPDATEs, then re-establishment on a new connection
     c = sc.consts("ebgp", {"ok"}, {"annA", "annAB", "annC6", "noOrigin", "pfxLen33"}, {"badMarker", "lenLong"},
-                  {"ManualStop", "HoldExpires", "Notification", "NotifCode7"}, 8 if not big else 9)
+                  {"ManualStop", "HoldExpires", "Notification", "NotifCode7", "ConnLost"}, 8 if not big else 9)
     behs += sc.run_family(ctx, "ebgp exits", c, 8000 if big else 900, sim=(500 if big else 60, 14))
     if big:
         c = sc.consts("ebgp", {"ok"}, {"annA", "noOrigin"}, {"badMarker"}, {"ManualStop", "Notification", "Wait"}, 8, sessions=2)
@@ -26,7 +26,7 @@ def run(ctx):
         c = sc.consts(cfg, {"ok"}, {"annAB"}, {"badMarker"}, {"ManualStop", "NotifCode7"}, 7)
         behs += sc.run_family(ctx, "route reflector client (%s) exits" % cfg, c, 2000 if big else 120)
     ctx.rule = ("BGPFSM behaviours that reach Established, learn 0-2 UPDATEs (IPv4 and IPv6) and leave through every exit path "
-                "(NOTIFICATION received - plain, with data, with a code or subcode this speaker does not know -, hold timer expiry, keepalive write failure, malformed UPDATE, malformed header, unexpected "
+                "(connection lost without a NOTIFICATION, NOTIFICATION received - plain, with data, with a code or subcode this speaker does not know -, hold timer expiry, keepalive write failure, malformed UPDATE, malformed header, unexpected "
                 "OPEN, manual stop), then re-establish on a new connection; after every event the Loc-RIB must hold exactly the current "
                 "session's routes while attached and nothing otherwise, the local ASN's (and for a route reflector client the cluster id's, defaulted or configured) loop-detection "
                 "contribution must follow (with a second session of the same VRF established throughout it must stay), and "
